@@ -31,6 +31,7 @@ type rewriter struct {
 	fset      *token.FileSet
 	file      *ast.File
 	fields    map[string]map[string]bool // struct → data fields worth tracking
+	mapFields map[string]bool            // "Struct.field" of map type
 	usedSched bool
 	usedUnsafe bool
 	tmp       int
@@ -54,7 +55,7 @@ func main() {
 		fmt.Fprintln(os.Stderr, "instrument:", err)
 		os.Exit(3)
 	}
-	rw := &rewriter{fset: fset, file: f, fields: map[string]map[string]bool{}}
+	rw := &rewriter{fset: fset, file: f, fields: map[string]map[string]bool{}, mapFields: map[string]bool{}}
 	// struct field sets come from all files given (the struct may be declared in another file)
 	for _, p := range append([]string{in}, os.Args[3:]...) {
 		g, err := parser.ParseFile(token.NewFileSet(), p, nil, 0)
@@ -175,6 +176,9 @@ func (rw *rewriter) collectFields(f *ast.File) {
 				}
 				for _, n := range fl.Names {
 					m[n.Name] = true
+					if _, isMap := fl.Type.(*ast.MapType); isMap {
+						rw.mapFields[ts.Name.Name+"."+n.Name] = true
+					}
 				}
 			}
 			rw.fields[ts.Name.Name] = m
@@ -313,6 +317,16 @@ func (rw *rewriter) stmts(list []ast.Stmt, env map[string]string) []ast.Stmt {
 		case *ast.RangeStmt:
 			rw.accesses(st.X, env, &as)
 			out = append(out, rw.accessStmts(as)...)
+			// iteration order over a tracked map is nondeterminism the scheduler must own
+			if se, ok := st.X.(*ast.SelectorExpr); ok {
+				if id, ok := se.X.(*ast.Ident); ok && rw.mapFields[env[id.Name]+"."+se.Sel.Name] {
+					if st.Value != nil || st.Key == nil {
+						die(rw.fset, st.Pos(), "range over a tracked map with a value variable is not modelled")
+					}
+					st.Value, st.Key = st.Key, ast.NewIdent("_")
+					st.X = &ast.CallExpr{Fun: rw.sel("MapKeys"), Args: []ast.Expr{se}}
+				}
+			}
 			rw.block(st.Body, env)
 			out = append(out, st)
 			continue
